@@ -430,7 +430,33 @@ Section FastComposition.
   Definition e2e_final : cfg -> state -> list einput -> state :=
     e2e_final_gen (tbl_decode code_dec code_disp L LB LI) (tbl_is_fast code_fast) ts_ok.
 
-  (* core: the decode function found for the PGN is the specification of definition d on the reassembled payload *)
+  (* core: the decode function found for the PGN is the specification of definition d on the reassembled payload
+     (`*_of`: for an arbitrary per-definition specification sp, EndToEndProofs.spec_fn) *)
+  Lemma e2e_fast_core_of (sp : spec_fn) d st ins pgn prio src dst seq fs p :
+    spec_head sp ->
+    tbl_decode code_dec code_disp L LB LI pgn (le_int p) = spec_dmsg_of sp (le_int p) d ->
+    Defn.d_pgn d = pgn -> ascii (bytes_of_str (Defn.d_id d)) = true ->
+    Forall2 (parses_to ts_ok pgn prio src dst) ins fs -> reassembles seq fs p ->
+    pgn <> CLAIM -> tbl_is_fast code_fast pgn = Ok (Some true) ->
+    (forall n, zlookup src (srcmap st) = Some n -> mfr_modelled n = true) ->
+    fresh_key seq (klookup (pgn, src, dst) (reasm st)) ->
+    let res := e2e_expected_of sp d (le_int p) src dst prio (zlookup src (srcmap st)) in
+    let st' := e2e_final cfg0 st ins in
+    map snd (e2e_run code_dec code_disp code_fast L LB LI ts_ok cfg0 st ins) = repeat (Ok None) (length fs - 1) ++ [res] /\
+    srcmap st' = srcmap st /\
+    (is_ok res = true -> klookup (pgn, src, dst) (reasm st') = None) /\
+    (forall k', k' <> (pgn, src, dst) -> klookup k' (reasm st') = klookup k' (reasm st)).
+  Proof.
+    intros Hd T Pg A P Re Hp Hf Hm Fr. cbv zeta. unfold e2e_run, e2e_final.
+    assert (Nc : forall dm, tbl_decode code_dec code_disp L LB LI pgn (le_int p) = Ok (Some dm) -> d_pgn dm <> CLAIM).
+    { intros dm. rewrite T. unfold spec_dmsg_of.
+      destruct (sp (le_int p) d) as [m| |] eqn:E; cbn [bind]; try discriminate.
+      intros X. inversion X. cbn [to_dmsg d_pgn].
+      destruct (Hd _ _ _ E) as [E1 _]. rewrite E1, Pg. exact Hp. }
+    pose proof (e2e_fast_of_parse (tbl_decode code_dec code_disp L LB LI) (tbl_is_fast code_fast) ts_ok
+                  st ins pgn prio src dst seq fs p P Re Hp Hf Hm Fr Nc) as R.
+    cbv zeta in R. rewrite T in R. rewrite (lift_spec_of sp d (le_int p) src dst prio _ Hd A) in R. exact R.
+  Qed.
   Lemma e2e_fast_core Ls LBs d st ins pgn prio src dst seq fs p :
     tbl_decode code_dec code_disp L LB LI pgn (le_int p) = spec_dmsg Ls LBs (le_int p) d ->
     Defn.d_pgn d = pgn -> ascii (bytes_of_str (Defn.d_id d)) = true ->
@@ -444,19 +470,31 @@ Section FastComposition.
     srcmap st' = srcmap st /\
     (is_ok res = true -> klookup (pgn, src, dst) (reasm st') = None) /\
     (forall k', k' <> (pgn, src, dst) -> klookup k' (reasm st') = klookup k' (reasm st)).
-  Proof.
-    intros T Pg A P Re Hp Hf Hm Fr. cbv zeta. unfold e2e_run, e2e_final.
-    assert (Nc : forall dm, tbl_decode code_dec code_disp L LB LI pgn (le_int p) = Ok (Some dm) -> d_pgn dm <> CLAIM).
-    { intros dm. rewrite T. unfold spec_dmsg.
-      destruct (spec_decode Ls LBs (le_int p) d) as [m| |] eqn:E; cbn [bind]; try discriminate.
-      intros X. inversion X. cbn [to_dmsg d_pgn].
-      destruct (spec_decode_head _ _ _ _ _ E) as [E1 _]. rewrite E1, Pg. exact Hp. }
-    pose proof (e2e_fast_of_parse (tbl_decode code_dec code_disp L LB LI) (tbl_is_fast code_fast) ts_ok
-                  st ins pgn prio src dst seq fs p P Re Hp Hf Hm Fr Nc) as R.
-    cbv zeta in R. rewrite T in R. rewrite (lift_spec Ls LBs d (le_int p) src dst prio _ A) in R. exact R.
-  Qed.
+  Proof. exact (e2e_fast_core_of (spec_decode Ls LBs) d st ins pgn prio src dst seq fs p (spec_head_fixed Ls LBs)). Qed.
 
   (* END TO END on given tables: hypotheses are the two table obligations for the group of the PGN *)
+  Theorem e2e_fast_tables_of (sp : spec_fn) g d st ins pgn prio src dst seq fs p :
+    spec_head sp ->
+    group_ok code_disp code_ids g = true -> in_scope g = true ->
+    In d (bound_defs g) -> Defn.d_pgn d = group_pgn g -> ascii (bytes_of_str (Defn.d_id d)) = true ->
+    (exists cd, find_fname (fname_of g d) code_dec = Some cd /\
+                forall q, run_ddef L LB LI q cd = sp q d) ->
+    Forall2 (parses_to ts_ok pgn prio src dst) ins fs -> reassembles seq fs p ->
+    pgn = group_pgn g -> pgn <> CLAIM -> tbl_is_fast code_fast pgn = Ok (Some true) ->
+    (forall n, zlookup src (srcmap st) = Some n -> mfr_modelled n = true) ->
+    fresh_key seq (klookup (pgn, src, dst) (reasm st)) ->
+    spec_select g (le_int p) = Some d ->
+    let res := e2e_expected_of sp d (le_int p) src dst prio (zlookup src (srcmap st)) in
+    let st' := e2e_final cfg0 st ins in
+    map snd (e2e_run code_dec code_disp code_fast L LB LI ts_ok cfg0 st ins) = repeat (Ok None) (length fs - 1) ++ [res] /\
+    srcmap st' = srcmap st /\
+    (is_ok res = true -> klookup (pgn, src, dst) (reasm st') = None) /\
+    (forall k', k' <> (pgn, src, dst) -> klookup k' (reasm st') = klookup k' (reasm st)).
+  Proof.
+    intros Hd G Sc B Pg A C P Re Ep Hp Hf Hm Fr S.
+    apply (e2e_fast_core_of sp d st ins pgn prio src dst seq fs p); try assumption; [|congruence].
+    rewrite Ep. apply (tbl_decode_is_spec_of code_dec code_disp code_ids L LB LI sp g d); assumption.
+  Qed.
   Theorem e2e_fast_tables Ls LBs g d st ins pgn prio src dst seq fs p :
     group_ok code_disp code_ids g = true -> in_scope g = true ->
     In d (bound_defs g) -> Defn.d_pgn d = group_pgn g -> ascii (bytes_of_str (Defn.d_id d)) = true ->
@@ -473,13 +511,30 @@ Section FastComposition.
     srcmap st' = srcmap st /\
     (is_ok res = true -> klookup (pgn, src, dst) (reasm st') = None) /\
     (forall k', k' <> (pgn, src, dst) -> klookup k' (reasm st') = klookup k' (reasm st)).
-  Proof.
-    intros G Sc B Pg A C P Re Ep Hp Hf Hm Fr S.
-    apply (e2e_fast_core Ls LBs d st ins pgn prio src dst seq fs p); try assumption; [|congruence].
-    rewrite Ep. apply (tbl_decode_is_spec code_dec code_disp code_ids L LB LI Ls LBs g d); assumption.
-  Qed.
+  Proof. exact (e2e_fast_tables_of (spec_decode Ls LBs) g d st ins pgn prio src dst seq fs p (spec_head_fixed Ls LBs)). Qed.
 
   (* the same for a PGN without dispatcher: the bound definition, for every payload *)
+  Theorem e2e_fast_tables_undispatched_of (sp : spec_fn) g d st ins pgn prio src dst seq fs p :
+    spec_head sp ->
+    group_ok code_disp code_ids g = true -> is_dispatched g = false ->
+    In d (bound_defs g) -> Defn.d_pgn d = group_pgn g -> ascii (bytes_of_str (Defn.d_id d)) = true ->
+    (exists cd, find_fname (fname_of g d) code_dec = Some cd /\
+                forall q, run_ddef L LB LI q cd = sp q d) ->
+    Forall2 (parses_to ts_ok pgn prio src dst) ins fs -> reassembles seq fs p ->
+    pgn = group_pgn g -> pgn <> CLAIM -> tbl_is_fast code_fast pgn = Ok (Some true) ->
+    (forall n, zlookup src (srcmap st) = Some n -> mfr_modelled n = true) ->
+    fresh_key seq (klookup (pgn, src, dst) (reasm st)) ->
+    let res := e2e_expected_of sp d (le_int p) src dst prio (zlookup src (srcmap st)) in
+    let st' := e2e_final cfg0 st ins in
+    map snd (e2e_run code_dec code_disp code_fast L LB LI ts_ok cfg0 st ins) = repeat (Ok None) (length fs - 1) ++ [res] /\
+    srcmap st' = srcmap st /\
+    (is_ok res = true -> klookup (pgn, src, dst) (reasm st') = None) /\
+    (forall k', k' <> (pgn, src, dst) -> klookup k' (reasm st') = klookup k' (reasm st)).
+  Proof.
+    intros Hd G D B Pg A C P Re Ep Hp Hf Hm Fr.
+    apply (e2e_fast_core_of sp d st ins pgn prio src dst seq fs p); try assumption; [|congruence].
+    rewrite Ep. apply (tbl_decode_undispatched_of code_dec code_disp code_ids L LB LI sp g d); assumption.
+  Qed.
   Theorem e2e_fast_tables_undispatched Ls LBs g d st ins pgn prio src dst seq fs p :
     group_ok code_disp code_ids g = true -> is_dispatched g = false ->
     In d (bound_defs g) -> Defn.d_pgn d = group_pgn g -> ascii (bytes_of_str (Defn.d_id d)) = true ->
@@ -496,8 +551,6 @@ Section FastComposition.
     (is_ok res = true -> klookup (pgn, src, dst) (reasm st') = None) /\
     (forall k', k' <> (pgn, src, dst) -> klookup k' (reasm st') = klookup k' (reasm st)).
   Proof.
-    intros G D B Pg A C P Re Ep Hp Hf Hm Fr.
-    apply (e2e_fast_core Ls LBs d st ins pgn prio src dst seq fs p); try assumption; [|congruence].
-    rewrite Ep. apply (tbl_decode_undispatched code_dec code_disp code_ids L LB LI Ls LBs g d); assumption.
+    exact (e2e_fast_tables_undispatched_of (spec_decode Ls LBs) g d st ins pgn prio src dst seq fs p (spec_head_fixed Ls LBs)).
   Qed.
 End FastComposition.
